@@ -573,7 +573,7 @@ def stream_strategy(proto, with_malformed):
     long_ = st.tuples(st.lists(valid, min_size=1, max_size=4), st.sampled_from(LONG_COUNTS), st.booleans(),
                       st.lists(seg, min_size=0, max_size=2), st.sampled_from(["none", "direct", "flushed"]), trailer,
                       cuts, cuts, timing).map(build_long)
-    return st.one_of(*([normal] * 11 + [long_]))
+    return st.one_of(*([normal] * 23 + [long_]))
 
 
 # ------------------------------------------------------------------------ shards ----
